@@ -23,6 +23,7 @@ package gff
 
 //@ func (*Reader).Read
 //@   property C03 C04
+//@   assert call strconv.ParseInt :: arg1 == 10
 //@   requires r != nil && r.r != nil
 //@   ensures [value-or-error] f != nil || err != nil
 //@   ensures [clean-record]   f != nil ==> err == nil
@@ -32,6 +33,7 @@ package gff
 
 //@ func (*Reader).commentMetaline
 //@   property C03 C04
+//@   assert call strconv.ParseInt :: arg1 == 10
 //@   throws
 //@   requires r != nil && r.r != nil
 //@   ensures [clean-record] f != nil ==> err == nil
